@@ -631,6 +631,7 @@ func checkFieldBuffersReset(p *core.Program, r *core.Report, pkgs ...string) {
 func checkBBC(p *core.Program, r *core.Report) {
 	checkServiceSends(p, r, bbcPkg, "Connector")
 	checkBBCExpiry(p, r)
+	checkBBCSendWaitsForTheModem(p, r)
 	// Send is called by the Core's handler, the retry job and the agents' submissions at once: the transmission ID is
 	// taken and advanced, and the fragments of one transmission are queued, under one lock - two transmissions with one
 	// ID interleave on the shared medium and every receiver rejects both
@@ -982,4 +983,44 @@ func storedFrom(addr ssa.Value, v ssa.Value) bool {
 		}
 	}
 	return false
+}
+
+// checkBBCSendWaitsForTheModem - necessary for "deliver exactly what was sent or report failure" on the sender's side:
+// Connector.Send queues the fragments for the writer goroutine and listens for failure fragments only between two
+// queueing steps. It returns nil when the last fragment is queued - possibly before the first one was broadcast - and a
+// receiver's failure fragment that arrives afterwards is heard by nobody: the bundle counts as transmitted. What must
+// exist: a nil return of Send is preceded by a blocking wait for the writer (a completion signal), after which the
+// failure channel can still be consulted.
+func checkBBCSendWaitsForTheModem(p *core.Program, r *core.Report) {
+	send := p.Func(bbcPkg, "Connector", "Send")
+	isCompletionWait := func(i ssa.Instruction) bool {
+		switch x := i.(type) {
+		case *ssa.UnOp:
+			return x.Op == token.ARROW && !pathEndsWith(x.X, "failTransmission")
+		case *ssa.Select:
+			if !x.Blocking {
+				return false
+			}
+			for _, st := range x.States {
+				if st.Dir == types.RecvOnly && !pathEndsWith(st.Chan, "failTransmission") {
+					return true
+				}
+			}
+		}
+		return false
+	}
+	waits := true
+	n := 0
+	for _, ret := range core.Returns(send) {
+		if len(ret.Results) == 0 || !core.IsNilConst(ret.Results[len(ret.Results)-1]) {
+			continue
+		}
+		n++
+		if !core.MustPassBefore(ret, isCompletionWait) {
+			waits = false
+		}
+	}
+	r.Min("success returns of Connector.Send", 1)
+	r.Count("success returns of Connector.Send", n)
+	r.Check(waits, "bbc/"+fname(send)+"/waits-for-the-modem", "Connector.Send returns success only after the writer goroutine signalled that the transmission went out (a blocking receive other than the failure channel precedes every nil return)", p.Pos(send.Pos()), "", "Send returns nil as soon as the last fragment is queued: a failure fragment a receiver broadcasts after that is never heard, the bundle is recorded as transmitted and never sent again")
 }
